@@ -3,6 +3,7 @@
 set -e
 cd "$(dirname "$0")"
 export CARGO_NET_OFFLINE=true
+python3 tools/gen_tables.py
 (cd lean && lake build Pep508 driver)
 (cd harness && CARGO_TARGET_DIR=target cargo build --offline --quiet)
 (cd harness && CARGO_TARGET_DIR=target-ext cargo build --offline --quiet --features ext)
